@@ -49,7 +49,12 @@ CFG = dict(
          "through by-reference Proxy and Demux and 32 x 50 direct; (E) callers whose context is ALREADY cancelled / expired (on a transport "
          "whose Write tests its context first) next to calls in flight: exhaustive {2 live + 1 dead, 1 live + 2 dead, Demux 2 + 1, Proxy plain "
          "2 calls + 1 dead}, 0..2 dead threads in half of (B), free-running 32 live + 6 dead and 16 plain + 4 dead through the Demux: the dead "
-         "ones must fail, every other call must get the reply to its own request; every history judged by spec_c01",
+         "ones must fail, every other call must get the reply to its own request; (F) a ZERO-SLACK topology - goat's own channel transport over "
+         "unbuffered channels (a Write returns when the peer has read), by reference, tapped at the client - in the free-running stress: 24 and 64 "
+         "callers x 50 calls (plain calls at 64), under a wedge detection (every goroutine blocked for good, some on a mutex: the calls without "
+         "result are failing inputs); (G) batches of 8 / 9 / 3 / 2 concurrent calls (every request of a batch reaches the server before a handler "
+         "returns: 8 workers busy at once) separated by GAPS of virtual time (6 s, 1 min, 1 h: schedule action STick, the scheduler sleeps in "
+         "the bubble so that timers fire), 2..4 batches, direct / Proxy / Demux, and random ticks in a third of (B); every history judged by spec_c01",
     assumptions=["payload bytes are identified by a 59-bit hash taken at the moment of each observation (a collision could hide, never "
                  "create, a difference)",
                  "handler invocation and call are linked by a request-metadata tag (sy-c), i.e. through the same envelope; plain calls "
